@@ -85,7 +85,7 @@ class PopulationBalanceModel:
         #Hidden variable for use in KWNEuler when adaptive time stepping is enabled
         #This allows for PSD to revert to its previous value if a time constraint is not met
         self._prevPSD = np.zeros(self.bins)
-        self._prevPSDbounds = np.zeros(self.bins+1)
+        self._prevPSDbounds = copy.copy(self.PSDbounds)
 
         #Temporary storage for net flux
         #This is used to correct the fluxes once the time step is known
@@ -377,7 +377,10 @@ class PopulationBalanceModel:
             oldV = self.ThirdMoment()
             distDen = self.PSD / (self.PSDbounds[1:] - self.PSDbounds[:-1])
             rOld = 0.5 * (self.PSDbounds[1:] + self.PSDbounds[:-1])
+            #Re-meshing is not a reset, so keep the backup made by createBackup
+            prevPSD, prevPSDbounds = self._prevPSD, self._prevPSDbounds
             self.reset(False)
+            self._prevPSD, self._prevPSDbounds = prevPSD, prevPSDbounds
             self.PSD = np.interp(self.PSDsize, rOld, distDen) * (self.PSDbounds[1:] - self.PSDbounds[:-1])
             newV = self.ThirdMoment()
             if newV != 0:
